@@ -742,6 +742,114 @@ def r05_5(prog, rep, rid='R05.5'):
 
 
 # ------------------------------------------------------------------------------
+# R05.6  a kill time is armed only for a timeout that was requested
+#
+EBASE = ('agent/executing/base.py', 'AgentExecutingComponent')
+
+
+def r05_6(prog, rep, rid='R05.6'):
+    rep.rule(rid, 'an entry of the timeout watch list carries a non-zero kill '
+             'time only if the corresponding timeout of the description is '
+             'non-zero (0 is the "do not kill" sentinel of _to_watcher)',
+             minimum=3)
+    from ..flow import reaching_defs
+    K = prog.cls(*EBASE)
+    # the consumer: cancel_task only under a truthy kill time
+    fw = prog.find_method(K, '_to_watcher')
+    rep.saw(fw)
+    g = cfg_of(fw)
+    smap = I.stmt_node_map(g)
+    kills = [c for c in calls_in(fw.node) if call_name(c) == 'self.cancel_task']
+    if not kills:
+        raise AnalysisError('UNRECOGNISED-IDIOM %s: no cancel_task call'
+                            % fw.where)
+    for c in kills:
+        n = smap[id(c)]
+        gl = [(g.nodes[t].ast, lab) for t, lab in guards(
+            g, n.id, start=loop_slice(g, n.loops[-1])[0] if n.loops else None)]
+        truthy = [a for a, lab in gl if isinstance(a, ast.Name) and lab == 'T']
+        expired = [a for a, lab in gl if isinstance(a, ast.Compare) and
+                   len(a.ops) == 1 and isinstance(a.ops[0], (ast.Gt, ast.GtE,
+                                                             ast.Lt, ast.LtE))]
+        rep.check(bool(truthy) and bool(expired), rid, fw, '_to_watcher kills '
+                  'only entries whose kill time is non-zero and has passed',
+                  construct='to_watcher:guards', message='_to_watcher calls '
+                  'cancel_task without testing that the kill time is set '
+                  '(non-zero) and expired', loc=fw.loc(c),
+                  history='a task that reported its startup in time and has '
+                  'no execution timeout is killed')
+    # the producers
+    n_prod = 0
+    for mname, f in sorted(K.methods.items()):
+        g = cfg_of(f)
+        smap = I.stmt_node_map(g)
+        for c in calls_in(f.node):
+            if not (isinstance(c.func, ast.Attribute) and
+                    c.func.attr == 'append' and
+                    unparse(c.func.value) == 'self._to_tasks' and c.args and
+                    isinstance(c.args[0], (ast.List, ast.Tuple)) and
+                    len(c.args[0].elts) >= 2):
+                continue
+            n_prod += 1
+            rep.saw(f)
+            x = c.args[0].elts[1]
+            an = smap[id(c)]
+            defs = []
+            if isinstance(x, ast.Name):
+                defs = reaching_defs(g, x.id, an.id)
+                # augmented definitions: every assignment of the name
+                defs = [(n, n.ast) for n in g.stmt_nodes() if n.kind == 'stmt'
+                        and isinstance(n.ast, (ast.Assign, ast.AugAssign)) and
+                        x.id in {t.id for t in (
+                            n.ast.targets if isinstance(n.ast, ast.Assign)
+                            else [n.ast.target]) if isinstance(t, ast.Name)}]
+            else:
+                defs = [(an, None)]
+            armed = []
+            for n, a in defs:
+                val = a.value if a is not None else x
+                if any(call_name(cc) == 'time.time' for cc in calls_in(val)):
+                    armed.append((n, a, val))
+            okp = True
+            why = ''
+            for n, a, val in armed:
+                # the operand the clock is added to (the timeout)
+                other = None
+                if isinstance(a, ast.AugAssign):
+                    other = a.target
+                elif isinstance(val, ast.BinOp) and isinstance(val.op, ast.Add):
+                    lt = any(call_name(cc) == 'time.time'
+                             for cc in calls_in(val.left))
+                    other = val.right if lt else val.left
+                if other is None:
+                    raise AnalysisError('UNRECOGNISED-IDIOM %s: kill time `%s`'
+                                        % (f.where, short(val, 50)))
+                if isinstance(other, ast.BoolOp):
+                    forms = {unparse(v) for v in other.values}
+                else:
+                    forms = {unparse(other)}
+                tests = [(t.id, 'T') for t in g.nodes if t.kind == 'test' and
+                         unparse(t.ast) in forms]
+                r = g.reachable(g.entry.id, skip_edges=tests)
+                if n.id in r:
+                    okp = False
+                    why = short(a if a is not None else val, 60)
+            rep.check(okp, rid, f, '%s: the clock is added to the timeout only '
+                      'when the timeout is non-zero' % f.qual,
+                      construct='%s:arm' % f.qual, message='%s arms a kill '
+                      'time with `%s` without testing that the timeout it '
+                      'adds is non-zero: the watcher treats 0 as "do not '
+                      'kill", now + 0 is a kill time that has already passed'
+                      % (f.qual, why), loc=f.loc(c),
+                      history='task with startup_timeout=30 and no execution '
+                      'timeout reports startup after 1 s: it is killed at '
+                      'once and ends CANCELED although nobody asked for it')
+    if n_prod < 2:
+        raise AnalysisError('R05.6: only %d producers of timeout entries found'
+                            % n_prod)
+
+
+# ------------------------------------------------------------------------------
 #
 def run(prog, rep, tier):
     rep.decided = ('route table: every pushing hand-on to a non-final state '
@@ -765,6 +873,10 @@ def run(prog, rep, tier):
     r05_4(prog, rep)
     r05_4b(prog, rep)
     r05_5(prog, rep)
+    r05_6(prog, rep)
+    # exactly one final state when process exit and cancel coincide
+    from .c07 import r07_2
+    r07_2(prog, rep, rid='R07.2')
 
 
 # ------------------------------------------------------------------------------
@@ -839,6 +951,12 @@ MUTATIONS = [
         (_U, "            for thing in things:\n                thing['target_state'] = state\n\n            publish = True\n            push    = False\n\n        super().advance(things=things, state=state, publish=publish, push=push,\n                        qname=qname, ts=ts, fwd=fwd, prof=prof)\n\n\n# ------------------------------------------------------------------------------\n#\nclass AgentComponent", "            publish = True\n            push    = False\n\n        super().advance(things=things, state=state, publish=publish, push=push,\n                        qname=qname, ts=ts, fwd=fwd, prof=prof)\n\n\n# ------------------------------------------------------------------------------\n#\nclass AgentComponent")]),
     dict(name='R05.5 only FAILED is special-cased', rules=('R05.5',), edits=[
         (_U, "        # CANCELED and FAILED is handled on the client side\n        # FIXME: what if `state==None` and `task['state']` is set instead?\n        if state in [rps.FAILED, rps.CANCELED]:", "        # CANCELED and FAILED is handled on the client side\n        # FIXME: what if `state==None` and `task['state']` is set instead?\n        if state in [rps.FAILED]:")]),
+    dict(name='R05.6 startup report arms an immediate kill (seed C05-b)', rules=('R05.6',), edits=[
+        (_EB, "                cancel_time = task['description'].get('timeout', 0.)\n                if cancel_time:\n                    cancel_time += time.time()\n", "                cancel_time = time.time() + task['description'].get('timeout', 0.)\n")]),
+    dict(name='R05.6 watcher kills entries without kill time', rules=('R05.6',), edits=[
+        (_EB, "                    if cancel_time:\n                        self._log.warning('task %s timed out after %.2f seconds',\n                                          task['uid'], now - cancel_time)\n                        self._prof.prof('task_timeout', uid=task['uid'])\n                        self.cancel_task(task=task)", "                    if True:\n                        self._prof.prof('task_timeout', uid=task['uid'])\n                        self.cancel_task(task=task)")]),
+    dict(name='R07.2 cancel without ownership test (seed C05-a)', rules=('R07.2',), edits=[
+        (_P, "            if tid not in self._tasks:\n                return\n            try:\n                del self._tasks[tid]\n            except KeyError:\n                pass\n\n        # task is still running", "            self._tasks.pop(tid, None)\n\n        # task is still running")]),
 ]
 
 SILENT = [
